@@ -78,10 +78,30 @@ def extent_contains(b, start, end):
     return False
 
 
-def _real_bins():
-    from inscripta.biocantor.util.bins import bins
+def _real_bins(memo=None):
+    """the real function. With `memo` (earlier calls named by a solver model of a memoising bins()): a FRESH module (empty memo tables) in which
+    those calls are made first, in order"""
+    import importlib
 
-    return bins
+    import inscripta.biocantor.util.bins as B
+
+    if memo is not None:
+        B = importlib.reload(B)
+        for c in memo:
+            try:
+                B.bins(c["start"], c["stop"], fmt=c["fmt"], one=c["one"])
+            except Exception:  # noqa
+                pass
+    return B.bins
+
+
+def _rb(kw):
+    """the real bins for one concrete evaluation: fresh module + the model's earlier calls when the counterexample names some (memoising bins)"""
+    if kw.get("memo") is not None:
+        if "_fn" not in kw:
+            kw["_fn"] = _real_bins(kw["memo"])
+        return kw["_fn"]
+    return _real_bins()
 
 
 def _region_env(z3=None):
@@ -103,6 +123,9 @@ def validate_translator():
     from vlib.src2smt import BinsEncoder
 
     enc = BinsEncoder()
+    memo = enc.has_memo
+    if memo:
+        enc.mode = "fresh"  # validate the single-call semantics: every memo lookup misses (a fresh process)
     real = _real_bins()
     n = 0
     zs, ze, zb = z3.Ints("zs ze zb")
@@ -111,6 +134,8 @@ def validate_translator():
         t_all = enc.inbins(zb, zs, ze, fmt)
         for s, l in itertools.product(GRID_STARTS, GRID_LENS):
             e = s + l
+            if memo:
+                real = _real_bins(memo=[])  # fresh module: empty memo tables
             sub = [(zs, z3.IntVal(s)), (ze, z3.IntVal(e))]
             got = z3.simplify(z3.substitute(t_one, *sub))
             exp = real(s, e, fmt=fmt)
@@ -118,6 +143,8 @@ def validate_translator():
                 exp = -777  # one=True fell through and returned the set (e.g. gff start 0): encoded as -777
             if got.as_long() != exp:
                 return dict(verdict="ERROR", message="translator disagrees with bins(%d,%d,%s): enc=%s real=%s" % (s, e, fmt, got, exp))
+            if memo:
+                real = _real_bins(memo=[])
             allb = real(s, e, fmt=fmt, one=False)
             for b in PROBE_BINS:
                 g = z3.is_true(z3.simplify(z3.substitute(t_all, (zb, z3.IntVal(b)), *sub)))
@@ -125,7 +152,8 @@ def validate_translator():
                     return dict(verdict="ERROR", message="translator set membership disagrees at bins(%d,%d,%s) bin %d" % (s, e, fmt, b))
             n += 1
     return dict(verdict="CONFIRMED", validated=n, queries=0, ast_nodes=enc.nodes,
-                message="encoding == real bins() on %d boundary vectors x %d probed bins (both fmt)" % (n, len(PROBE_BINS)))
+                message="encoding == real bins() on %d boundary vectors x %d probed bins (both fmt)%s" % (
+                    n, len(PROBE_BINS), "; bins() keeps a memo table (%s): validated with an empty table, queries quantify over arbitrary earlier calls" % ", ".join(sorted(enc.memo_names)) if memo else ""))
 
 
 # ------------------------------------------------------------------ SMT obligations
@@ -187,8 +215,8 @@ def _smt(name, build, concrete, desc):
         if enc.side_conditions:
             # the encoding is exact only where its side conditions hold (subscripts in range, |x| < 2^64 for bit_length):
             # an input within the assumptions that violates one is a candidate counterexample (IndexError in the real code)
-            sc = Query(name + ":side", assume + [s > -2 ** 62, s < 2 ** 62, e > -2 ** 62, e < 2 ** 62, qs > -2 ** 62, qs < 2 ** 62,
-                                                 qe > -2 ** 62, qe < 2 ** 62, z3.Not(z3.And(enc.side_conditions))], [s, e, qs, qe]).solve(cross=False)
+            sc = Query(name + ":side", memo_calls=enc.memo_calls, vars_=[s, e, qs, qe], assertions=assume + [s > -2 ** 62, s < 2 ** 62, e > -2 ** 62, e < 2 ** 62, qs > -2 ** 62, qs < 2 ** 62,
+                                                 qe > -2 ** 62, qe < 2 ** 62, z3.Not(z3.And(enc.side_conditions))]).solve(cross=False)
             nq += 1
             if sc["z3"] == "sat":
                 return dict(verdict="REFUTED", cex=sc["model"], queries=nq,
@@ -196,7 +224,7 @@ def _smt(name, build, concrete, desc):
             if sc["z3"] != "unsat":
                 return dict(verdict="UNKNOWN", message="side-condition query: %s" % sc["z3"], queries=nq)
             assume = assume + [s > -2 ** 62, s < 2 ** 62, e > -2 ** 62, e < 2 ** 62, qs > -2 ** 62, qs < 2 ** 62, qe > -2 ** 62, qe < 2 ** 62]
-        res = Query(name, assume + [negprop], [s, e, qs, qe]).solve()
+        res = Query(name, assume + [negprop], [s, e, qs, qe], memo_calls=enc.memo_calls).solve()
         out = dict(queries=nq + (2 if res.get("cvc5") in ("sat", "unsat") else 1), z3=res["z3"], cvc5=res.get("cvc5"),
                    solver_s=res["z3_s"], excluded_known_findings=excluded)
         if res["z3"] == "unsat" and res.get("cvc5") in ("unsat", "unavailable", "unknown", "none") or \
@@ -230,7 +258,7 @@ def obligations(tier):
         return [0 <= s, s <= e, e < MAXC], lambda: enc.bin1(s, e, "bed") != ref_bin_z3(z3, s, e)
 
     def c1(start, stop, **kw):
-        return _real_bins()(start, stop, fmt="bed") == ref_bin(start, stop)
+        return _rb(kw)(start, stop, fmt="bed") == ref_bin(start, stop)
 
     out.append(_smt("kent_equal_bed", b1, c1, "bins(s,e,'bed') == smallest UCSC bin containing [s,e) for all 0<=s<=e<2^29"))
 
@@ -239,7 +267,7 @@ def obligations(tier):
         return [1 <= s, s <= e, e < MAXC], lambda: enc.bin1(s, e, "gff") != ref_bin_z3(z3, s - 1, e)
 
     def c1g(start, stop, **kw):
-        return _real_bins()(start, stop, fmt="gff") == ref_bin(start - 1, stop)
+        return _rb(kw)(start, stop, fmt="gff") == ref_bin(start - 1, stop)
 
     out.append(_smt("kent_equal_gff", b1g, c1g, "bins(s,e,'gff') == smallest UCSC bin containing 1-based closed [s,e] for all 1<=s<=e<2^29"))
 
@@ -248,7 +276,7 @@ def obligations(tier):
         return [z3.Or(s < 0, e < 0, s >= MAXC, e >= MAXC)], lambda: z3.Or(enc.bin1(s, e, "bed") != 1, enc.bin1(s, e, "gff") != 1)
 
     def c2(start, stop, **kw):
-        return _real_bins()(start, stop, fmt="bed") == 1 and _real_bins()(start, stop, fmt="gff") == 1
+        return _rb(kw)(start, stop, fmt="bed") == 1 and _rb(kw)(start, stop, fmt="gff") == 1
 
     out.append(_smt("out_of_range_is_1", b2, c2, "negative or >= 2^29 coordinates get bin 1 (both conventions)"))
 
@@ -257,7 +285,7 @@ def obligations(tier):
         return [0 <= s, s <= e, e < MAXC], lambda: z3.Not(extent_contains_z3(z3, enc.bin1(s, e, "bed"), s, e))
 
     def c3(start, stop, **kw):
-        return extent_contains(_real_bins()(start, stop, fmt="bed"), start, stop)
+        return extent_contains(_rb(kw)(start, stop, fmt="bed"), start, stop)
 
     out.append(_smt("assigned_bin_contains_interval", b3, c3, "extent of bins(s,e,'bed') contains [s,e) for all 0<=s<=e<2^29"))
 
@@ -266,8 +294,8 @@ def obligations(tier):
         return [], lambda: z3.Or(enc.bin1(s, e, "bed") == -777, z3.And(s >= 1, enc.bin1(s, e, "gff") == -777))
 
     def c3b(start, stop, **kw):
-        return isinstance(_real_bins()(start, stop, fmt="bed"), int) and (
-            start < 1 or isinstance(_real_bins()(start, stop, fmt="gff"), int))
+        return isinstance(_rb(kw)(start, stop, fmt="bed"), int) and (
+            start < 1 or isinstance(_rb(kw)(start, stop, fmt="gff"), int))
 
     out.append(_smt("one_true_returns_int", b3b, c3b, "bins(one=True) returns a bin number for every pair of integers (gff: for every 1-based start >= 1)"))
 
@@ -275,8 +303,8 @@ def obligations(tier):
     def b4(z3, enc, s, e, qs, qe):
         return [0 <= qs, qs <= s, s <= e, e <= qe, qs < qe], lambda: z3.Not(enc.inbins(enc.bin1(s, e, "bed"), qs, qe, "bed"))
 
-    def c4(start, stop, qs, qe):
-        real = _real_bins()
+    def c4(start, stop, qs, qe, **kw):
+        real = _rb(kw)
         return real(start, stop, fmt="bed") in real(qs, qe, fmt="bed", one=False)
 
     out.append(_smt("contained_never_hidden", b4, c4,
